@@ -20,7 +20,8 @@ RULE = ("A case is 1-4 fake nodes, one session (protocol 4/3 = one connection pe
         "the connection; connection closed by the peer but not yet noticed; connection dying right now with a request "
         "in flight (pool shut down or being replaced, depending on the conviction policy); pool without a connection "
         "(REMOTE host with connect_to_remote_hosts=False); connection died earlier (host down and reconnecting, or "
-        "replacement connection being opened, the clock advanced by a generated amount).  The switch is triggered by "
+        "replacement connection being opened, the clock advanced by a generated amount); optionally a pooled connection is "
+        "killed after a successful switch (its replacement must select the keyspace).  The switch is triggered by "
         "execute_async('USE ks'), execute('USE ks') or set_keyspace('ks') through a generated coordinator, nodes hold "
         "the pools' USE requests and the case releases them in a generated order; a schedule tape picks the runnable "
         "virtual thread at every choice point.  Non-trivial: >= 2 hosts in >= 2 distinct situations and the switch "
@@ -55,6 +56,7 @@ def s_case(gran):
         "coord": st.integers(0, 3),
         "t_before": st.sampled_from([0.0, 0.3, 1.3, 1.9, 2.5, 4.0]),
         "order": st.lists(st.integers(0, 5), max_size=6),
+        "kill_after": st.sampled_from([None, 0, 1, 2, 3]),
         "tape": st.lists(st.integers(0, 3), max_size=30 if gran == "locks" else 10),
         "gran": st.just(gran),
     })
@@ -80,7 +82,7 @@ def enum_cases(chunk):
         for order in (chunk["orders"] if n > 1 else [[0]]):
             yield {"pv": 4, "hosts": [list(SITUATIONS[i]) for i in combo], "convict": chunk["convict"],
                    "trigger": "execute_async", "timeout": None, "coord": 0, "t_before": 1.9,
-                   "order": list(order) * 4, "tape": [], "gran": "blocking"}
+                   "kill_after": None, "order": list(order) * 4, "tape": [], "gran": "blocking"}
 
 
 def interpret(case, ctx):
@@ -108,7 +110,9 @@ def _run(case, ctx, sim):
     script = dict((addrs[i], hosts[i][1]) for i in range(n))
 
     def on_request(node, conn, req):
-        if req["op"] == "QUERY" and not conn.is_control_connection:
+        if conn.is_control_connection:
+            return S.legacy_system_tables(node, conn, req)
+        if req["op"] == "QUERY":
             q = req.get("query", "")
             if q == "SELECT hold FROM t_%s" % node.address.replace(".", "_"):
                 return ("hold",)
@@ -328,7 +332,7 @@ def _history(case, ctx, sim, cluster, session, policy, addrs, script, stt, calls
                         cause = "pool-without-connection"
                     else:
                         cause = "other"
-                    ctx.fail(["C20.applied", pool_class, cause],
+                    ctx.fail(["C20.applied", cause] + ([] if cause == "after-unreported-failure" else [pool_class]),
                              "after the switch reported success a request (%s) went out on %r whose keyspace is %r "
                              "(server side %r), situation of that host: %r" % (
                                  tag, c, c.keyspace, c.srv_keyspace, pre_of.get(nd.address)))
@@ -336,6 +340,21 @@ def _history(case, ctx, sim, cluster, session, policy, addrs, script, stt, calls
         return True
 
     if probe("now"):
+        ka = case.get("kill_after")
+        if ka is not None:
+            # a pooled connection dies after the switch: its replacement (or the re-created pool) must select the keyspace
+            a = addrs[ka % n]
+            conns = [c for c in S.pool_connections(session, a) if not c.is_closed]
+            if conns:
+                ctx.label("killed-after-switch")
+                policy.order = [a]
+                for _ in conns:
+                    with ctx.driver(["C20.probe", "hold-query"]):
+                        sim.call(session.execute_async, "SELECT hold FROM t_%s" % a.replace(".", "_"))
+                    sim.settle()
+                for c in conns:
+                    net.server_close(c)
+                sim.settle()
         sim.advance(8.0)
         S.drain_held(sim)
         probe("later")
